@@ -151,7 +151,12 @@ def run_shard(params, rec):
             kind = d[0]
             nstores = count_stores(spec, prog, idx)
             kind += ", multi-store instruction" if nstores > 1 else (", single store" if nstores == 1 else ", no store")
-            rec.fail("%s: faulting instruction has a %s effect (%s)" % (backend, kind, spec.family),
+            key = "%s: faulting instruction has a %s effect (%s)" % (backend, kind, spec.family)
+            if nstores > 1 and d[0] == "memory":
+                # one mechanism on every architecture: the stores of one instruction are applied one
+                # after the other and the fault is only checked afterwards
+                key = "%s: faulting multi-store instruction leaves partial memory effects" % backend
+            rec.fail(key,
                      "%s %s: after the fault at %s: %s %s" % (spec.mname, backend, wit["faulting"], d[0], d[1]),
                      dict(wit, diff=d))
             continue
